@@ -256,6 +256,7 @@ class Gen:
             bp = self.r.randint(1, 4) + big
             kind = self.r.choice(["PInfix", "PInfix", "PInfix", "PPrefix", "PPostfix"])
             og = ["Just", [sym]]
+            if self.r.random() < 0.15: og = ["Just", [sym, self.r.choice(self.PRATT_SYMS)]]       # a two-token operator: can fail after consuming
             if kind == "PInfix": ops.append(["PInfix", self.r.randint(0, 1), bp, og, self.k()])
             else: ops.append([kind, bp, og, self.k()])
         return ["Pratt", self.r.choice(["vec", "tuple"]), atom, ops]
